@@ -205,7 +205,12 @@ Wrapped(w, x) ==
     [] w = "UrvS" -> TUnsafe(53, TRValue(52, TSafe(51, x)))
 WrapFormats == {Fv, Fs, Fd, FplusV, FsharpV, Fq, Fx, F6v, FT}
 WrapRoots == (PlainX(60) \cup ClassyX(60)) \X WrapKinds
-WrapExpand(r) == {Case("Sprintf", Around(f), <<Wrapped(r[2], r[1])>>, <<>>) : f \in WrapFormats}
+\* around the plain values (whose characters are compared with fmt's): precision alone, width and precision, flags --
+\* directives that the wrappers' Format methods have to hand on to fmt unchanged
+WrapFormatsPlain == {<<37, 46, 50, 118>>, <<37, 46, 51, 115>>, <<37, 46, 52, 100>>, <<37, 56, 46, 51, 115>>, <<37, 45, 56, 118>>,
+                     <<37, 48, 56, 100>>, <<37, 32, 100>>, <<37, 43, 100>>, <<37, 35, 120>>, <<37, 43, 113>>}
+WrapExpand(r) == {Case("Sprintf", Around(f), <<Wrapped(r[2], r[1])>>, <<>>) :
+                    f \in WrapFormats \cup (IF r[1] \in PlainX(60) THEN WrapFormatsPlain ELSE {})}
                  \cup {Case("Sprint", <<>>, <<Wrapped(r[2], r[1])>>, <<>>)}
 
 \* ---- slice "bytes" (C01, C03): concrete payload bytes in every position that reaches the buffer
@@ -390,8 +395,8 @@ RLeaf(kind, i) ==
     [] kind = "bool" -> TBool(i)                   [] kind = "float" -> TFloat(i)           [] kind = "complex" -> TComplex(i)
     [] kind = "sstr" -> TSStr(i, P(i))             [] kind = "uintn" -> TUint(i, 7)
     [] kind = "rstr" -> TRStr(i, P(i))             [] kind = "rbytes" -> TRBytes(i, P(i))
-    [] kind = "rstre" -> TRStr(i, P(i) \o StartM \o <<A, 98>> \o EndM \o <<A>>)
-    [] kind = "rbytese" -> TRBytes(i, P(i) \o StartM \o <<A>> \o EndM)
+    [] kind = "rstre" -> TRStr(i, P(i) \o StartM \o P(i + 1) \o EndM \o <<A>>)
+    [] kind = "rbytese" -> TRBytes(i, P(i) \o StartM \o P(i + 1) \o EndM)
     [] kind = "sv" -> TObj(i, {"SV"}, <<>>, <<>>, <<>>, <<>>)
     [] kind = "svstr" -> TObj(i, {"SV", "ST"}, <<>>, <<>>, P(i), <<>>)
     [] kind = "reg" -> TObj(i, {"REG"}, <<>>, <<>>, <<>>, <<>>)
@@ -464,7 +469,9 @@ RGen(n, p, d) ==
 
 RDirs == <<Fv, Fv, Fv, FplusV, FsharpV, Fs, Fs, Fd, Fd, Fx, Fq, FT, F6v, Fm6v, F06d, FZ, Fp,
            <<37, 32, 100>>, <<37, 43, 100>>, <<37, 46, 50, 118>>, <<37, 46, 49, 115>>, <<37, 35, 120>>, <<37, 88>>, <<37, 85>>, <<37, 99>>,
-           <<37, 111>>, <<37, 98>>, <<37, 101>>, <<37, 103>>, <<37, 116>>, <<37, 51, 115>>, <<37, 45, 52, 113>>, <<37, 48, 53, 118>>>>
+           <<37, 111>>, <<37, 98>>, <<37, 101>>, <<37, 103>>, <<37, 116>>, <<37, 51, 115>>, <<37, 45, 52, 113>>, <<37, 48, 53, 118>>,
+           \* precisions that cut a string operand in the middle (also inside an envelope it may hold)
+           <<37, 46, 54, 118>>, <<37, 46, 57, 115>>, <<37, 49, 50, 46, 56, 118>>>>
 RLits == << <<>>, <<>>, <<A>>, <<32>>, <<A, 58>>, <<194, 186>>, <<37, 37>>, <<A, 32>> >>
 RECURSIVE RFormat(_, _, _)
 RFormat(n, j, m) == IF j > m THEN PickOf(RLits, H(n, 900 + j, 4))
